@@ -146,15 +146,15 @@ PLAN = {
                           "(induction over the directory tree through the contract at the recursive call): the value returned is tree_of(path) "
                           "-- leaf {'': {length[, pieces root]}} for a file, no root for an empty file, for a directory the dictionary over its "
                           "ascending listing of the trees of its entries -- and piece layers gets a key exactly for the files larger than one "
-                          "piece; TorrentFileV2.assemble / TorrentFileHybrid.assemble for single files and directories (file tree, length, meta "
-                          "version, piece layers); TorrentAssembler (the creator behind the command line): leaf case of _traverse and single-file "
-                          "assemble.  TorrentAssembler's directory walk and the values stored under the layer keys of a directory are decided by "
-                          "the bounded harness against an independent BEP 52 reference",
+                          "piece; the same WHOLE WALK for TorrentAssembler._traverse (the creator behind the command line), whose per-file "
+                          "FileHasher iteration is followed piece by piece (layer hashes == piece roots of the bytes consumed so far; at the end "
+                          "the root is over the padded piece layer of the whole file); assemble of all three creators for single files and "
+                          "directories (file tree, length, meta version, piece layers keys).  The values stored under the layer keys of a "
+                          "directory torrent are decided by the bounded harness against an independent BEP 52 reference",
             "level_note": "L2 (layer-wise root of padded piece roots == root over all padded leaves) is a hand/Lean lemma, not compiled by the "
                           "check; piece_roots / leaves / tree_of / layered_under are spec functions defined by ground unfolding instances of "
                           "their recursive definitions; termination of the walk is not proved",
-            "modulo_bounded": ["TorrentAssembler._traverse: directory branch", "TorrentAssembler.assemble: directory branch",
-                               "piece-layer values (not keys) of directory torrents"],
+            "modulo_bounded": ["piece-layer values (not keys) of directory torrents"],
             "trusted": ["SHA-256 uninterpreted", "L2 merkle decomposition (Lean, DESIGN appendix A)",
                         "L4: two powers of two in [n, 2n) are equal (uniqueness of the BEP 52 padding count and of the padded piece layer)",
                         "readinto returns fewer bytes than asked only at end of file", "no concurrent modification while hashing",
@@ -162,11 +162,11 @@ PLAN = {
     "C10": {"functions": [], "harness": True,
             "level_text": "the three v2-capable hashers are each proved against the same spec functions (piece_roots, hybrid_pieces, mroot over the "
                           "padded piece layer), so for one file they agree on root, piece layer, v1 pieces and padding entry; same for the leaf "
-                          "case of the three _traverse functions; TorrentFileV2 and TorrentFileHybrid are proved to produce the same file tree "
-                          "tree_of(path) and the same piece-layer keys for every directory tree.  Agreement with TorrentAssembler on directories "
-                          "and of the v1 views is decided by the bounded harness (pairwise comparison)",
+                          "case of the three _traverse functions; TorrentFileV2, TorrentFileHybrid and TorrentAssembler are each proved to produce "
+                          "the same file tree tree_of(path) and the same piece-layer keys for every directory tree.  Agreement of the v1 views "
+                          "and of the piece-layer values of directories is decided by the bounded harness (pairwise comparison)",
             "level_note": "agreement follows from equal postconditions per file; whole-torrent agreement bounded",
-            "modulo_bounded": ["TorrentAssembler directory walk", "v1 view of hybrid directories", "TorrentFile (v1) vs hybrid v1 view"],
+            "modulo_bounded": ["v1 view of hybrid directories", "TorrentFile (v1) vs hybrid v1 view", "piece-layer values of directory torrents"],
             "trusted": ["as C02"]},
     "C14": {"functions": [], "harness": True,
             "level_text": "frame: every call site reachable from commands.rebuild is classified from the real call graph; the file system is reached "
@@ -187,7 +187,7 @@ PLAN = {
                           "its padding entry, the v1 pieces are appended.  The order across files in the directory walk and assemble are decided "
                           "by the bounded harness against the reference",
             "level_note": "directory branch of _traverse and assemble bounded",
-            "modulo_bounded": ["order of the v1 list / pieces across the files of a directory", "TorrentAssembler directory walk"],
+            "modulo_bounded": ["order of the v1 list / pieces across the files of a directory"],
             "trusted": ["SHA-1 / SHA-256 uninterpreted", "readinto short only at EOF"]},
     "C13": {"functions": [], "harness": True,
             "level_text": "utils.copypath proved (what it writes at dest is a byte-identical copy of the source; parents are created; nothing else "
